@@ -528,7 +528,7 @@ func c13GenReq(t *rapid.T) c13Case {
 		// what the Go-data stores can hold (as in C03 / C18)
 		o.Unions, o.ConfigFalse, o.CompoundKeys = false, false, true
 		o.Types = []string{"int8", "int32", "int64", "uint16", "uint64", "decimal64", "string", "boolean"}
-		o.KeyTypes = []string{"string", "int32"}
+		o.KeyTypes = []string{"string", "int32", "string", "int32", "int8", "int64", "uint16", "uint64", "boolean"}
 	}
 	m := dm.GenModule(t, o)
 	// operations: an rpc at the top, an action and a notification in every container and list of the first two levels
